@@ -47,6 +47,7 @@ class Event:
     depth: int = 0
     ctx: tuple = ()
     ncond: int = 0
+    conds: tuple = ()              # the path conditions established when the event was emitted
     result: object = None
 
     @property
@@ -191,8 +192,9 @@ class Interp:
     def __init__(self, prog: Program, cls: ClassInfo | None = None,
                  inline: Callable | None = None, max_depth: int = 6,
                  max_paths: int = 6000, fork_asserts: bool = False,
-                 loop_iters: tuple = (1,), on_event: Callable | None = None):
+                 loop_iters: tuple = (1,), on_event: Callable | None = None, fork_ifexp: bool = True):
         self.prog = prog
+        self.fork_ifexp = fork_ifexp
         self.cls = cls
         self.inline_policy = inline or (lambda callee, recv, depth: recv == SELF)
         self.max_depth = max_depth
@@ -291,6 +293,7 @@ class Interp:
     def _emit(self, p: Path, ev: Event) -> Event:
         ev.ctx = tuple(p.ctx)
         ev.ncond = len(p.cond_log)
+        ev.conds = tuple(p.cond_log)
         ev.depth = len(p.frames) - 1
         p.events.append(ev)
         if self.on_event:
@@ -729,11 +732,13 @@ class Interp:
         for q, v in self.ev_many([e.left] + list(e.comparators), p):
             parts = []
             for i, op in enumerate(e.ops):
-                parts.append(("cmp", names[type(op).__name__], v[i], v[i + 1]))
+                parts.append(_canon_cmp(names[type(op).__name__], v[i], v[i + 1]))
             out.append((q, parts[0] if len(parts) == 1 else ("bool", "and", tuple(parts))))
         return out
 
     def ev_IfExp(self, e, p):
+        if not self.noinline and self.fork_ifexp:
+            return self.ev_IfExp_fork(e, p)
         out = []
         for q, c in self.ev(e.test, p):
             if q.status != "normal":
@@ -747,6 +752,16 @@ class Interp:
             else:
                 for q2, (a, b) in self.ev_many([e.body, e.orelse], q):
                     out.append((q2, ("ifexp", c, a, b)))
+        return out
+
+    def ev_IfExp_fork(self, e, p):
+        """`a if c else b` in statement context is the same thing as `if c: … else: …`: fork on the (atomic) conditions."""
+        out = []
+        for q, t in self.branch(e.test, p):
+            if q.status != "normal":
+                out.append((q, ("bottom",)))
+            else:
+                out.extend(self.ev(e.body if t else e.orelse, q))
         return out
 
     def ev_JoinedStr(self, e, p):
@@ -1213,6 +1228,19 @@ def _undefault(t):
     return t[1] if isinstance(t, tuple) and t and t[0] == "default" else t
 
 
+_FLIP = {"<": ">", ">": "<", "<=": ">=", ">=": "<=", "==": "==", "!=": "!=", "is": "is", "isnot": "isnot"}
+
+
+def _canon_cmp(op: str, a, b):
+    """One spelling per comparison: a constant operand goes to the right (`0 < x` is `x > 0`); when neither or both
+    are constants the operands of a symmetric or reversible operator are put in a fixed order."""
+    if op in _FLIP:
+        ca, cb = strip_typed(a)[0] == "const", strip_typed(b)[0] == "const"
+        if (ca and not cb) or (ca == cb and repr(strip_typed(a)) > repr(strip_typed(b))):
+            return ("cmp", _FLIP[op], b, a)
+    return ("cmp", op, a, b)
+
+
 def _positional_prefix(callee: FuncInfo, pos: tuple, kw: tuple, skip_first: bool):
     """Canonical argument form for a resolved callee: keywords that continue the positional prefix become positional
     (`f(a, y=b)` and `f(a, b)` give the same term); the rest stay keywords in the order written."""
@@ -1307,6 +1335,30 @@ def walk(term):
 
 def contains(term, pred) -> bool:
     return any(pred(t) for t in walk(term))
+
+
+def decided(path, term, upto: int | None = None):
+    """Truth value with which `term` was last decided as a branch condition on this path (None if it never was)."""
+    want = strip_typed(term)
+    out = None
+    for c, t in (path.cond_log if upto is None else path.cond_log[:upto]):
+        if strip_typed(c) == want:
+            out = t
+    return out
+
+
+def cmp_with_left(c, left_pred):
+    """(op, left, right) of a comparison term, oriented so that `left_pred(left)` holds (the operator is mirrored when
+    the operands are exchanged); None when the term is not a comparison or neither orientation fits."""
+    c = strip_typed(c)
+    if not (isinstance(c, tuple) and c and c[0] == "cmp"):
+        return None
+    op, a, b = c[1], strip_typed(c[2]), strip_typed(c[3])
+    if left_pred(a):
+        return op, a, b
+    if op in _FLIP and left_pred(b):
+        return _FLIP[op], b, a
+    return None
 
 
 def subst(term, f):
@@ -1418,14 +1470,18 @@ def field_defs(prog: Program, cls: ClassInfo, inline=None) -> dict:
             paths = it.run(m)
         except AnalysisError:
             raise
-        seen = set()
+        seen = {}
         for p in paths:
             for e in p.events:
                 if e.kind == "setattr" and e.target[0] == SELF and e.func == m:
                     key = (e.name, id(e.node), e.value)
                     if key in seen:
+                        # same store, same value, reached under other path conditions: remember them on the kept event
+                        if e.conds not in seen[key].alt_conds:
+                            seen[key].alt_conds.append(e.conds)
                         continue
-                    seen.add(key)
+                    seen[key] = e
+                    e.alt_conds = [e.conds]
                     out.setdefault(e.name, []).append((e.value, e))
     for c in prog.mro(cls):
         for name, (ann, val) in c.attrs.items():
